@@ -243,7 +243,7 @@ func writeEvidence(c *Ctx, spec *propSpec, out string, discharged, nviol int, kn
 			" The check decides the named structural clauses (each a necessary condition of the property), not the behaviour as a whole.",
 		"obligations":         len(c.Obls),
 		"discharged":          discharged,
-		"known_findings":      knownHits,
+		"known_findings":      nonNil(knownHits),
 		"evaluations":         len(c.Obls),
 		"distinct_nontrivial": constructs,
 		"rule":                "every rule enumerates its finite instance set on the current source; an instance is distinct by rule+construct key and non-trivial when discharging it required analysis (not a type/shape match alone)",
@@ -257,7 +257,7 @@ func writeEvidence(c *Ctx, spec *propSpec, out string, discharged, nviol int, kn
 		"callgraph":           map[string]bool{"vta": c.cgVTA != nil, "cha": c.cgCHA != nil},
 		"checker_cmd":         "/verif/check " + c.Prop + " " + c.Tier,
 		"trusted_base":        []string{"go/types, go/ssa, go/cfg, callgraph/vta from golang.org/x/tools v0.29.0", "soylint rule implementations in /verif/checker"},
-		"analysis_failures":   c.Fatal,
+		"analysis_failures":   append([]string{}, c.Fatal...),
 	}
 	if extraPath != "" {
 		if b, err := os.ReadFile(extraPath); err == nil {
@@ -344,4 +344,11 @@ func cmdReplay(args []string) int {
 	}
 	fmt.Printf("obligation %s %s no longer exists on this tree\n", r.Obligation.Rule, r.Obligation.Key)
 	return 0
+}
+
+func nonNil(o []Obligation) []Obligation {
+	if o == nil {
+		return []Obligation{}
+	}
+	return o
 }
